@@ -188,6 +188,16 @@ func bootstrapOps(rng *rand.Rand, async bool) {
 		}
 		op()
 	}()
+	if rng.Intn(2) == 0 { // the listening socket of listener 0 fails on its own, around the time it is closed
+		wg.Add(1)
+		breakDelay := closeDelay + time.Duration(rng.Intn(40)-20)*time.Microsecond
+		go func() {
+			defer wg.Done()
+			time.Sleep(breakDelay)
+			f.Break("l0:1")
+			op()
+		}()
+	}
 	wg.Add(1)
 	go func() {
 		defer wg.Done()
@@ -382,6 +392,59 @@ func sendFailOps(rng *rand.Rand, _ bool) {
 	bs.Shutdown()
 }
 
+// a connection whose writes take a little while: the sender is still inside Writev when the writer goes on
+type slowConn struct{ net.Conn }
+
+func (c slowConn) Write(p []byte) (int, error) {
+	time.Sleep(30 * time.Microsecond)
+	return c.Conn.Write(p)
+}
+
+type slowFactory struct{ mock.Factory }
+
+func (f *slowFactory) Connect(o *transport.Options) (transport.Transport, error) {
+	a, b := net.Pipe()
+	go io.Copy(io.Discard, b)
+	return transport.NewTransport(slowConn{a}, 0, 0), nil
+}
+
+type onlyReader struct{ r io.Reader } // hides WriteTo: the head handler streams it through ReadFrom
+
+func (o onlyReader) Read(p []byte) (int, error) { return o.r.Read(p) }
+
+// messages that are plain io.Readers of several KiB on an async channel with a slow connection: ReadFrom hands
+// chunk after chunk to the sender while it reads the next one
+func streamOps(rng *rand.Rand, _ bool) {
+	f := &slowFactory{Factory: *mock.NewFactory()}
+	chf := netty.NewAsyncWriteChannel(8, true)
+	init := func(ch netty.Channel) { ch.Pipeline().AddLast(sink{}) }
+	bs := netty.NewBootstrap(netty.WithTransport(f), netty.WithChannel(chf), netty.WithClientInitializer(init), netty.WithChildInitializer(init))
+	ch, err := bs.Connect("mock://c:1")
+	if err != nil {
+		panic(err)
+	}
+	var wg sync.WaitGroup
+	var sizes [2][4]int
+	for g := range sizes {
+		for i := range sizes[g] {
+			sizes[g][i] = 3000 + rng.Intn(3000)
+		}
+	}
+	for g := 0; g < 2; g++ {
+		wg.Add(1)
+		go func(g int) {
+			defer wg.Done()
+			for i := 0; i < 4; i++ {
+				ch.Write(onlyReader{bytes.NewReader(bytes.Repeat([]byte{byte('a' + g)}, sizes[g][i]))})
+				op()
+			}
+		}(g)
+	}
+	wg.Wait()
+	ch.Close(nil)
+	bs.Shutdown()
+}
+
 var scenarios = []struct {
 	name  string
 	f     func(*rand.Rand, bool)
@@ -394,6 +457,7 @@ var scenarios = []struct {
 	{"bootstrap-sync", bootstrapOps, false, 1},
 	{"channel-buffered", bufferedOps, true, 2},
 	{"channel-sendfail", sendFailOps, true, 4},
+	{"channel-stream", streamOps, true, 4},
 	{"idle", idleOps, true, 150},
 	{"pools", poolOps, false, 10},
 }
